@@ -21,7 +21,10 @@ def same (name : String) : Bool :=
 
 def sameAll (names : List String) : Bool := names.all same
 
-/-- the comparator tables and the kernels they refer to are unchanged -/
-def kernelsSame : Bool := Gen.tablesHash == Expected.tablesHash && Gen.kernelsHash == Expected.kernelsHash
+/-- the comparator tables are unchanged (which comparator is served by which kernel). The kernels themselves are no
+longer compared as text: their meaning is regenerated as `Gen.kernelAst` and proved equal to the spec's predicates
+(`QF.Props.C02Kernels.gen_kernel_semantics`), so renaming a variable in a kernel raises no alarm while changing an
+operator, a null test or an operand does. -/
+def kernelsSame : Bool := Gen.tablesHash == Expected.tablesHash
 
 end QF.Tie
